@@ -1,6 +1,7 @@
 package redis
 
 import (
+	"sort"
 	"strings"
 
 	"github.com/New-JAMneration/JAM-Protocol/internal/database"
@@ -22,12 +23,16 @@ func (db *redisDB) NewIterator(prefix []byte, start []byte) (database.Iterator, 
 	buf = append(buf, start...)
 	startString := string(buf)
 
+	prefixString := string(prefix)
+
 	var nextCursor uint64
 	// Pre-allocate with heuristic: SCAN uses COUNT 100
 	allKeys := make([]string, 0, 100)
+	seen := make(map[string]struct{})
 	var err error
 
-	pattern := startString + "*"
+	// MATCH takes a glob pattern: the prefix is matched literally.
+	pattern := escapeGlob(prefixString) + "*"
 
 	for {
 		var keys []string
@@ -36,17 +41,26 @@ func (db *redisDB) NewIterator(prefix []byte, start []byte) (database.Iterator, 
 			return nil, err
 		}
 
-		// Filter keys that match the prefix
+		// Keep the keys that carry the prefix and are not before prefix+start
+		// (SCAN may return a key more than once).
 		for _, key := range keys {
-			if strings.HasPrefix(key, startString) {
-				allKeys = append(allKeys, key)
+			if !strings.HasPrefix(key, prefixString) || strings.Compare(key, startString) < 0 {
+				continue
 			}
+			if _, dup := seen[key]; dup {
+				continue
+			}
+			seen[key] = struct{}{}
+			allKeys = append(allKeys, key)
 		}
 
 		if nextCursor == 0 {
 			break
 		}
 	}
+
+	// SCAN returns keys in no particular order
+	sort.Strings(allKeys)
 
 	// Pre-allocate capacity for keys and values
 	keys := make([][]byte, 0, len(allKeys))
@@ -69,6 +83,19 @@ func (db *redisDB) NewIterator(prefix []byte, start []byte) (database.Iterator, 
 		keys:   keys,
 		values: values,
 	}, nil
+}
+
+// escapeGlob escapes the characters that are special in a Redis glob pattern.
+func escapeGlob(s string) string {
+	var b strings.Builder
+	for i := 0; i < len(s); i++ {
+		switch s[i] {
+		case '*', '?', '[', ']', '\\':
+			b.WriteByte('\\')
+		}
+		b.WriteByte(s[i])
+	}
+	return b.String()
 }
 
 // Next advances the iterator to the next key/value pair.
